@@ -11,6 +11,8 @@ use pvkit::{fnv64, hexs, pv_ensure, pv_fail, Fail, Obs, Session};
 use serde::{Deserialize, Serialize};
 use std::sync::atomic::{AtomicU64, Ordering as AO};
 
+mod shape;
+
 static UNDECODABLE: AtomicU64 = AtomicU64::new(0);
 static UNDECODABLE_UNEXPECTED: AtomicU64 = AtomicU64::new(0);
 
@@ -551,6 +553,192 @@ fn check_artefact(a: &Art, obs: &mut Obs) -> Result<(), Fail> {
 }
 
 // =============================================================================================
+// (a') Byron chain data: standalone headers and the shape oracle against real bytes
+// =============================================================================================
+
+/// decode `raw` on its own as `T` (not wrapped in KeepRaw), require full consumption and a
+/// byte-identical re-encoding
+fn standalone_iso<'b, T>(label: &str, raw: &'b [u8]) -> Result<T, Fail>
+where
+    T: minicbor::Decode<'b, ()> + minicbor::Encode<()>,
+{
+    let mut d = minicbor::Decoder::new(raw);
+    let v: T = match d.decode() {
+        Ok(v) => v,
+        Err(e) => pv_fail!(
+            format!("standalone-decode-error:{label}"),
+            "{} cut out of a block the library decodes does not decode on its own as {label}: {e}", short(raw)
+        ),
+    };
+    pv_ensure!(
+        d.position() == raw.len(),
+        format!("standalone-not-fully-consumed:{label}"),
+        "decoder stopped at {} of {} bytes of {}", d.position(), raw.len(), short(raw)
+    );
+    let re = minicbor::to_vec(&v).map_err(|e| Fail { sig: format!("standalone-encode-error:{label}"), msg: e.to_string() })?;
+    if re != raw {
+        let sig = match (cborx::read(raw), cborx::read(&re)) {
+            (Ok(a), Ok(b)) => diff_signature(&tree_diffs(&a, &b)),
+            _ => "reencoding-malformed".into(),
+        };
+        pv_fail!(
+            format!("c06-not-isomorphic:standalone:{label}:{sig}"),
+            "{label} {} decoded on its own re-encodes to {}", short(raw), short(&re)
+        );
+    }
+    Ok(v)
+}
+
+fn chain_classes_head(h: &byron::BlockHead, obs: &mut Obs) {
+    obs.class(format!("chain:byron::SscProof::Variant{}", match h.body_proof.ssc_proof {
+        byron::SscProof::Variant0(..) => 0,
+        byron::SscProof::Variant1(..) => 1,
+        byron::SscProof::Variant2(..) => 2,
+        byron::SscProof::Variant3(..) => 3,
+    }));
+    obs.class(format!("chain:byron::BlockSig::{}", match h.consensus_data.3 {
+        byron::BlockSig::Signature(..) => "Signature",
+        byron::BlockSig::LwdlgSig(..) => "LwdlgSig",
+        byron::BlockSig::DlgSig(..) => "DlgSig",
+    }));
+    obs.class(format!("chain:byron::BlockHeadEx.attributes:{}", h.extra_data.attributes.is_some() as u8));
+}
+
+fn chain_classes_body(b: &byron::BlockBody, obs: &mut Obs) {
+    let (v, certs) = match &b.ssc_payload {
+        byron::Ssc::Variant0(c, certs) => {
+            if !c.0.is_empty() {
+                obs.class("chain:byron::SscComms:nonempty");
+            }
+            (0, certs)
+        }
+        byron::Ssc::Variant1(o, certs) => {
+            if !o.is_empty() {
+                obs.class("chain:byron::SscOpens:nonempty");
+            }
+            (1, certs)
+        }
+        byron::Ssc::Variant2(s, certs) => {
+            if !s.is_empty() {
+                obs.class("chain:byron::SscShares:nonempty");
+            }
+            (2, certs)
+        }
+        byron::Ssc::Variant3(certs) => (3, certs),
+    };
+    obs.class(format!("chain:byron::Ssc::Variant{v}"));
+    if !certs.0.is_empty() {
+        obs.class("chain:byron::SscCerts:nonempty");
+    }
+    if !b.dlg_payload.is_empty() {
+        obs.class("chain:byron::Dlg");
+    }
+    if let Some(p) = &*b.upd_payload.proposal {
+        obs.class("chain:byron::UpProp");
+        if let Some(m) = &p.block_version_mod {
+            obs.class("chain:byron::BVerMod");
+            if m.tx_fee_policy.is_some() {
+                obs.class("chain:byron::TxFeePol");
+            }
+        }
+    }
+    if !b.upd_payload.votes.is_empty() {
+        obs.class("chain:byron::UpVote");
+    }
+    for t in b.tx_payload.iter() {
+        for w in t.witness.iter() {
+            obs.class(format!("chain:byron::Twit::{}", match w {
+                byron::Twit::PkWitness(..) => "PkWitness",
+                byron::Twit::ScriptWitness(..) => "ScriptWitness",
+                byron::Twit::RedeemWitness(..) => "RedeemWitness",
+                byron::Twit::Other(..) => "Other",
+            }));
+        }
+    }
+}
+
+/// Byron artefacts only (everything else is discarded): the header is cut out of the block with
+/// cborx - not taken from the library's KeepRaw - decoded on its own and re-encoded; the decoded
+/// header and the decoded block are compared with the chain bytes through the shape oracle.
+fn check_byron_chain(a: &Art, obs: &mut Obs) -> Result<(), Fail> {
+    let tree = match cborx::read(&a.bytes) {
+        Ok(t) => t,
+        Err(_) => {
+            obs.discard();
+            return Ok(());
+        }
+    };
+    match a.kind.as_str() {
+        "block" => {
+            let era = tree.as_array().and_then(|v| v.first()).and_then(|n| n.as_u64());
+            let hdr = tree.as_array().and_then(|v| v.get(1)).and_then(|b| b.as_array()).and_then(|b| b.first());
+            let (Some(era @ 0..=1), Some(hdr)) = (era, hdr) else {
+                obs.discard();
+                return Ok(());
+            };
+            let raw_hdr = hdr.span(&a.bytes);
+            if era == 0 {
+                let b: (u16, byron::EbBlock) = match minicbor::decode(&a.bytes) {
+                    Ok(b) => b,
+                    Err(e) => return undecodable(a, obs, e.to_string()),
+                };
+                let h: byron::EbbHead = standalone_iso("byron::EbbHead", raw_hdr)?;
+                shape_check("byron::EbbHead", "chain", &shape::ebb_head(&h), raw_hdr)?;
+                shape_check("byron::EbBlock", "chain", &shape::wrapped(0, shape::eb_block(&b.1)), &a.bytes)?;
+                obs.class("chain:byron::EbbHead");
+            } else {
+                let b: (u16, byron::Block) = match minicbor::decode(&a.bytes) {
+                    Ok(b) => b,
+                    Err(e) => return undecodable(a, obs, e.to_string()),
+                };
+                let h: byron::BlockHead = standalone_iso("byron::BlockHead", raw_hdr)?;
+                shape_check("byron::BlockHead", "chain", &shape::block_head(&h), raw_hdr)?;
+                shape_check("byron::Block", "chain", &shape::wrapped(1, shape::block(&b.1)), &a.bytes)?;
+                obs.class("chain:byron::BlockHead");
+                chain_classes_head(&h, obs);
+                chain_classes_body(&b.1.body, obs);
+            }
+        }
+        "header" => {
+            // a header file: [magic, prev, proof, consensus, extra]; Byron main headers carry an array as third item
+            let is_byron = tree.as_array().map(|v| v.len() == 5 && v[0].as_u64().is_some()).unwrap_or(false);
+            if !is_byron {
+                obs.discard();
+                return Ok(());
+            }
+            if tree.as_array().map(|v| v[2].as_array().is_some()).unwrap_or(false) {
+                let h: byron::BlockHead = standalone_iso("byron::BlockHead", &a.bytes)?;
+                shape_check("byron::BlockHead", "chain", &shape::block_head(&h), &a.bytes)?;
+                obs.class("chain:byron::BlockHead(file)");
+                chain_classes_head(&h, obs);
+            } else {
+                let h: byron::EbbHead = standalone_iso("byron::EbbHead", &a.bytes)?;
+                shape_check("byron::EbbHead", "chain", &shape::ebb_head(&h), &a.bytes)?;
+                obs.class("chain:byron::EbbHead(file)");
+            }
+        }
+        "tx" => {
+            if !a.name.starts_with("byron") {
+                obs.discard();
+                return Ok(());
+            }
+            let t: byron::TxPayload = match minicbor::decode(&a.bytes) {
+                Ok(t) => t,
+                Err(e) => return undecodable(a, obs, e.to_string()),
+            };
+            shape_check("byron::TxPayload", "chain", &shape::tx_payload(&t), &a.bytes)?;
+            obs.class("chain:byron::TxPayload(file)");
+        }
+        _ => {
+            obs.discard();
+            return Ok(());
+        }
+    }
+    obs.nontrivial_key(fnv64(&a.bytes));
+    Ok(())
+}
+
+// =============================================================================================
 // (b) generated values
 // =============================================================================================
 
@@ -562,7 +750,7 @@ pub struct ValueCase {
     pub choices: Vec<u64>,
 }
 
-pub const TYPES: [&str; 62] = [
+pub const TYPES: [&str; 90] = [
     "Metadatum", "Metadata", "AuxiliaryData", "Relay", "RationalNumber", "StakeCredential", "Nonce", "PoolMetadata",
     "ExUnits", "ExUnitPrices", "TransactionInput", "NativeScript", "MoveInstantaneousReward",
     "alonzo::Value", "conway::Value", "alonzo::Mint", "conway::Mint",
@@ -580,6 +768,14 @@ pub const TYPES: [&str; 62] = [
     "alonzo::Tx", "babbage::Tx", "conway::Tx",
     "alonzo::Block", "babbage::Block", "conway::Block",
     "byron::TxIn+Twit+TxOut", "byron::Tx",
+    // round 4: every remaining Byron model type (value round trip + shape oracle) and the few post-Byron types
+    // no other family reached
+    "byron::SlotId", "byron::Address", "byron::Witnesses", "byron::TxPayload", "byron::SscProof", "byron::Ssc",
+    "byron::Dlg", "byron::Lwdlg", "byron::TxFeePol", "byron::BVerMod", "byron::UpProp", "byron::UpVote", "byron::Up",
+    "byron::BlockSig", "byron::BlockCons", "byron::BlockHeadEx", "byron::BlockProof", "byron::BlockHead",
+    "byron::EbbCons", "byron::EbbHead", "byron::BlockBody", "byron::Block", "byron::EbBlock",
+    "alonzo::RedeemerPointer", "babbage::PostAlonzoTransactionOutput", "conway::PostAlonzoTransactionOutput",
+    "conway::Update", "Language",
 ];
 
 /// encode, check well-formedness with cborx, decode, compare, check full consumption
@@ -649,6 +845,35 @@ macro_rules! rt {
             ),
         }
         *$key ^= fnv64(&bytes);
+    }};
+}
+
+/// The item found (encoder output or chain bytes) must have the shape the Byron CDDL gives the value.
+fn shape_check(label: &str, origin: &str, exp: &shape::E, bytes: &[u8]) -> Result<(), Fail> {
+    let got = match cborx::read(bytes) {
+        Ok(n) => n,
+        Err(e) => pv_fail!(format!("shape-mismatch:{origin}:{label}:not-wellformed"), "{} is not one well-formed item: {e:?}", short(bytes)),
+    };
+    let d = shape::diffs(exp, &got);
+    if !d.is_empty() {
+        pv_fail!(
+            format!("shape-mismatch:{origin}:{label}:{}", shape::signature(&d)),
+            "{label}: {} does not have the shape the Byron CDDL gives this value: {}",
+            short(bytes),
+            shorts(d.iter().map(|x| format!("{} {} {}", x.path, x.what, x.detail)).collect::<Vec<_>>().join("; "))
+        );
+    }
+    Ok(())
+}
+
+/// `rt!` followed by the shape oracle on the bytes the encoder produced
+macro_rules! rts {
+    ($label:expr, $ty:ty, $v:expr, $shape:path, $g:expr, $key:expr, $mode:ident) => {{
+        let v: $ty = $v;
+        let exp = $shape(&v);
+        rt!($label, $ty, v.clone(), $g, $key, $mode);
+        let bytes = minicbor::to_vec(&v).map_err(|e| Fail { sig: format!("encode-error:{}", $label), msg: e.to_string() })?;
+        shape_check($label, "value", &exp, &bytes)?;
     }};
 }
 
@@ -765,11 +990,47 @@ fn check_value(c: &ValueCase, obs: &mut Obs) -> Result<(), Fail> {
         "babbage::Block" => rt!(t, babbage::Block<'_>, g.babbage_block(), g, k, eq),
         "conway::Block" => rt!(t, conway::Block<'_>, g.conway_block(), g, k, eq),
         "byron::TxIn+Twit+TxOut" => {
-            rt!("byron::TxIn", byron::TxIn, g.byron_txin(), g, k, eq);
-            rt!("byron::Twit", byron::Twit, g.byron_twit(), g, k, dbg);
-            rt!("byron::TxOut", byron::TxOut, g.byron_txout(), g, k, eq);
+            rts!("byron::TxIn", byron::TxIn, g.byron_txin(), shape::tx_in, g, k, eq);
+            rts!("byron::Twit", byron::Twit, g.byron_twit(), shape::twit, g, k, dbg);
+            rts!("byron::TxOut", byron::TxOut, g.byron_txout(), shape::tx_out, g, k, eq);
         }
-        "byron::Tx" => rt!(t, byron::Tx, g.byron_tx(), g, k, eq),
+        "byron::Tx" => rts!(t, byron::Tx, g.byron_tx(), shape::tx, g, k, eq),
+        "byron::SlotId" => rts!(t, byron::SlotId, g.byron_slot_id(), shape::slot_id, g, k, dbg),
+        "byron::Address" => rts!(t, byron::Address, g.byron_address(), shape::address, g, k, eq),
+        "byron::Witnesses" => rts!(t, byron::Witnesses, g.byron_witnesses(), shape::witnesses, g, k, dbg),
+        "byron::TxPayload" => rts!(t, byron::TxPayload<'_>, g.byron_tx_payload(), shape::tx_payload, g, k, dbg),
+        "byron::SscProof" => rts!(t, byron::SscProof, g.byron_ssc_proof(), shape::ssc_proof, g, k, dbg),
+        "byron::Ssc" => rts!(t, byron::Ssc, g.byron_ssc(), shape::ssc, g, k, dbg),
+        "byron::Dlg" => rts!(t, byron::Dlg, g.byron_dlg(), shape::dlg, g, k, dbg),
+        "byron::Lwdlg" => rts!(t, byron::Lwdlg, g.byron_lwdlg(), shape::lwdlg, g, k, dbg),
+        "byron::TxFeePol" => rts!(t, byron::TxFeePol, g.byron_tx_fee_pol(), shape::tx_fee_pol, g, k, dbg),
+        "byron::BVerMod" => rts!(t, byron::BVerMod, g.byron_bver_mod(), shape::bver_mod, g, k, dbg),
+        "byron::UpProp" => rts!(t, byron::UpProp, g.byron_up_prop(), shape::up_prop, g, k, dbg),
+        "byron::UpVote" => rts!(t, byron::UpVote, g.byron_up_vote(), shape::up_vote, g, k, dbg),
+        "byron::Up" => rts!(t, byron::Up, g.byron_up(), shape::up, g, k, dbg),
+        "byron::BlockSig" => rts!(t, byron::BlockSig, g.byron_block_sig(), shape::block_sig, g, k, dbg),
+        "byron::BlockCons" => rts!(t, byron::BlockCons, g.byron_block_cons(), shape::block_cons, g, k, dbg),
+        "byron::BlockHeadEx" => rts!(t, byron::BlockHeadEx, g.byron_block_head_ex(), shape::block_head_ex, g, k, dbg),
+        "byron::BlockProof" => rts!(t, byron::BlockProof, g.byron_block_proof(), shape::block_proof, g, k, dbg),
+        "byron::BlockHead" => rts!(t, byron::BlockHead, g.byron_block_head(), shape::block_head, g, k, dbg),
+        "byron::EbbCons" => rts!(t, byron::EbbCons, g.byron_ebb_cons(), shape::ebb_cons, g, k, dbg),
+        "byron::EbbHead" => rts!(t, byron::EbbHead, g.byron_ebb_head(), shape::ebb_head, g, k, dbg),
+        "byron::BlockBody" => rts!(t, byron::BlockBody<'_>, g.byron_block_body(), shape::block_body, g, k, dbg),
+        "byron::Block" => rts!(t, byron::Block<'_>, g.byron_block(), shape::block, g, k, dbg),
+        "byron::EbBlock" => rts!(t, byron::EbBlock<'_>, g.byron_eb_block(), shape::eb_block, g, k, dbg),
+        "alonzo::RedeemerPointer" => rt!(t, alonzo::RedeemerPointer, g.alonzo_redeemer_pointer(), g, k, eq),
+        "babbage::PostAlonzoTransactionOutput" => {
+            rt!(t, babbage::PostAlonzoTransactionOutput<'_>, g.babbage_post_alonzo_output(), g, k, eq)
+        }
+        "conway::PostAlonzoTransactionOutput" => {
+            rt!(t, conway::PostAlonzoTransactionOutput<'_>, g.conway_post_alonzo_output(), g, k, eq)
+        }
+        "conway::Update" => rt!(t, conway::Update, g.conway_update(), g, k, eq),
+        "Language" => {
+            rt!("alonzo::Language", alonzo::Language, alonzo::Language::PlutusV1, g, k, eq);
+            rt!("babbage::Language", babbage::Language, g.babbage_language(), g, k, eq);
+            rt!("conway::Language", conway::Language, g.conway_language(), g, k, eq);
+        }
         _ => {
             obs.discard();
             return Ok(());
@@ -799,7 +1060,17 @@ fn weighted_types() -> Vec<&'static str> {
         let heavy = t.contains("Transaction") || t.contains("WitnessSet") || t.contains("Tx") || t.contains("Block")
             || t.contains("Certificate") || t.contains("ProtocolParamUpdate") || t.contains("GovAction") || t.contains("Proposal")
             || t.contains("AuxiliaryData") || t.contains("Metadat") || t.contains("Redeemers") || t.contains("Update");
-        for _ in 0..(if heavy { 3 } else { 1 }) {
+        // the Byron families added in round 4: composite ones 3, the others 2
+        let byron4 = t.starts_with("byron::") && t != "byron::Tx" && t != "byron::TxIn+Twit+TxOut";
+        let byron_heavy = byron4 && (heavy || t.contains("Ssc") || t.contains("Up") || t.contains("BVerMod") || t.contains("Head"));
+        let w = if byron_heavy || (heavy && !byron4) {
+            3
+        } else if byron4 {
+            2
+        } else {
+            1
+        };
+        for _ in 0..w {
             v.push(t);
         }
     }
@@ -816,6 +1087,67 @@ fn value_case() -> impl Strategy<Value = ValueCase> {
         ],
     )
         .prop_map(|(ty, choices)| ValueCase { ty: ty.to_string(), choices })
+}
+
+/// Classes the Byron artefacts of test_data must produce (they are what validates shape.rs).
+const CHAIN_CLASSES: [&str; 22] = [
+    "chain:byron::EbbHead", "chain:byron::BlockHead", "chain:byron::BlockHead(file)", "chain:byron::TxPayload(file)",
+    "chain:byron::SscProof::Variant0", "chain:byron::SscProof::Variant1", "chain:byron::SscProof::Variant2", "chain:byron::SscProof::Variant3",
+    "chain:byron::Ssc::Variant0", "chain:byron::Ssc::Variant1", "chain:byron::Ssc::Variant2", "chain:byron::Ssc::Variant3",
+    "chain:byron::SscComms:nonempty", "chain:byron::SscShares:nonempty", "chain:byron::SscCerts:nonempty",
+    "chain:byron::BlockSig::DlgSig", "chain:byron::UpProp", "chain:byron::BVerMod", "chain:byron::UpVote",
+    "chain:byron::Twit::PkWitness", "chain:byron::BlockHeadEx.attributes:1", "block:byron:txs:1..23",
+];
+
+/// `value:<Type>[::<Variant>]` classes of the types added in round 4: every type, every enum variant,
+/// every optional field present and absent, every collection empty / non-empty in both encodings.
+fn value_classes() -> Vec<String> {
+    let mut v: Vec<String> = [
+        "byron::SlotId", "byron::Address", "byron::Address:payload-opaque", "byron::Address:payload-structured",
+        "byron::AddrAttr:distr-bootstrap", "byron::AddrAttr:distr-single-key", "byron::AddrAttr:derivation-path",
+        "byron::AddrAttr:network-magic", "byron::TxOut", "byron::TxIn::Variant0", "byron::TxIn::Other", "byron::Tx",
+        "byron::Twit::PkWitness", "byron::Twit::ScriptWitness", "byron::Twit::RedeemWitness", "byron::Twit::Other",
+        "byron::TxPayload", "byron::SscProof::Variant0", "byron::SscProof::Variant1", "byron::SscProof::Variant2",
+        "byron::SscProof::Variant3", "byron::Ssc::Variant0", "byron::Ssc::Variant1", "byron::Ssc::Variant2", "byron::Ssc::Variant3",
+        "byron::SscComm", "byron::SscCert", "byron::VssProof", "byron::Dlg", "byron::Lwdlg", "byron::TxFeePol::Variant0",
+        "byron::TxFeePol::Other", "byron::BVerMod", "byron::UpProp", "byron::UpVote", "byron::UpVote.vote:true",
+        "byron::UpVote.vote:false", "byron::Up", "byron::BlockSig::Signature", "byron::BlockSig::LwdlgSig", "byron::BlockSig::DlgSig",
+        "byron::BlockCons", "byron::BlockHeadEx", "byron::BlockProof", "byron::BlockHead", "byron::EbbCons", "byron::EbbHead",
+        "byron::BlockBody", "byron::Block", "byron::EbBlock", "alonzo::RedeemerPointer::Spend", "alonzo::RedeemerPointer::Mint",
+        "alonzo::RedeemerPointer::Cert", "alonzo::RedeemerPointer::Reward", "conway::Update",
+    ]
+    .iter()
+    .map(|c| format!("value:{c}"))
+    .collect();
+    for coll in [
+        "byron::Witnesses", "byron::VssEnc", "byron::VssProof.3", "byron::SscComm.shares", "byron::SscComms", "byron::SscCerts",
+        "byron::SscOpens", "byron::SscShares", "byron::SscShares.inner", "byron::VssDec-list", "byron::UpProp.data", "byron::Up.votes",
+        "byron::Difficulty", "byron::BlockBody.tx_payload", "byron::BlockBody.dlg_payload", "byron::Block.extra", "byron::EbBlock.body",
+    ] {
+        for form in ["def-empty", "def-nonempty", "indef-empty", "indef-nonempty"] {
+            v.push(format!("value:{coll}:{form}"));
+        }
+    }
+    for opt in [
+        "byron::BVerMod.soft_fork_rule", "byron::BVerMod.tx_fee_policy", "byron::BVerMod.script_version", "byron::UpProp.block_version",
+        "byron::UpProp.block_version_mod", "byron::UpProp.software_version", "byron::UpProp.attributes", "byron::UpProp.from",
+        "byron::UpProp.signature", "byron::Up.proposal", "byron::BlockHeadEx.attributes",
+    ] {
+        for p in [0, 1] {
+            v.push(format!("value:{opt}:{p}"));
+        }
+    }
+    for era in ["babbage", "conway"] {
+        for d in [0, 1] {
+            for sc in [0, 1] {
+                v.push(format!("value:{era}::GenPostAlonzoTransactionOutput(datum={d},script={sc})"));
+            }
+        }
+    }
+    for c in ["babbage::Language#0", "babbage::Language#1", "conway::Language#0", "conway::Language#1", "conway::Language#2"] {
+        v.push(c.to_string());
+    }
+    v
 }
 
 /// Variant classes every run must have produced (name, number of variants).
@@ -854,7 +1186,19 @@ pub fn run(s: &Session) {
     arts.extend(chunk);
     s.note("artefacts_test_data", serde_json::json!(n_test_data));
     s.note("artefacts_chunk_blocks", serde_json::json!(n_chunk));
+    // Byron artefacts (blocks with era tag 0 / 1, byron*.tx, byron1.header) go through a second sub-check
+    let byron_arts: Vec<Art> = arts
+        .iter()
+        .filter(|a| match a.kind.as_str() {
+            "block" => a.bytes.len() > 2 && a.bytes[0] == 0x82 && a.bytes[1] <= 0x01,
+            "tx" | "header" => a.name.starts_with("byron"),
+            _ => false,
+        })
+        .cloned()
+        .collect();
+    s.note("artefacts_byron", serde_json::json!(byron_arts.len()));
     s.foreach("corpus-isomorphism", arts, true, check_artefact);
+    s.foreach("byron-chain-shape", byron_arts, true, check_byron_chain);
     s.note("artefacts_not_decoded_by_the_library", serde_json::json!(UNDECODABLE.load(AO::Relaxed)));
     if !s.replaying() {
         s.health(n_test_data >= 90, "fewer than 90 artefacts found in test_data");
@@ -865,6 +1209,10 @@ pub fn run(s: &Session) {
         );
         for c in ["block:byron-ebb", "block:byron", "block:alonzo-compatible", "block:babbage", "block:conway", "tx:decoded-by:byron"] {
             s.health(s.class_count(c) > 0, &format!("corpus class {c} missing"));
+        }
+        // what the real Byron data must have exercised for the shape oracle to count as validated by it
+        for c in CHAIN_CLASSES {
+            s.health(s.class_count(c) > 0, &format!("Byron chain class {c} missing"));
         }
     }
 
@@ -882,6 +1230,11 @@ pub fn run(s: &Session) {
                 if s.class_count(&format!("{e}#{v}")) == 0 {
                     missing.push(format!("{e}#{v}"));
                 }
+            }
+        }
+        for c in value_classes() {
+            if s.class_count(&c) == 0 {
+                missing.push(c);
             }
         }
         for c in [
